@@ -15,7 +15,8 @@ afterwards was created by the library, not by the caller.
 
 import copy
 
-from dsim.actors import exc_summary, pyval, sized_reader_cls
+from dsim.actors import (exc_summary, pyval, sized_reader_cls, subclassed,
+                         plain)
 from dsim.world import (Actor, HarnessError, SimEventCap, SimHang,
                         SimReadHandle, SimWriteHandle, jsonable)
 
@@ -29,15 +30,15 @@ OBSERVERS = ('to_bytes', 'eq', 'ne', 'repr', 'iter', 'write_shared',
 
 def _snap_content(sec):
     try:
-        return {'id': sec.section_id, 'options': copy.deepcopy(sec.options),
-                'content': copy.deepcopy(sec.content)}
+        return {'id': sec.section_id, 'options': plain(sec.options),
+                'content': plain(sec.content)}
     except Exception as e:
         return {'error': type(e).__name__}
 
 
 def snap_file(f):
     try:
-        return {'id': f.section_id, 'options': copy.deepcopy(f.options),
+        return {'id': f.section_id, 'options': plain(f.options),
                 'meta': _snap_content(f.meta_section),
                 'diff': _snap_content(f.diff_section)}
     except Exception as e:
@@ -46,7 +47,7 @@ def snap_file(f):
 
 def snap_change(c):
     try:
-        return {'id': c.section_id, 'options': copy.deepcopy(c.options),
+        return {'id': c.section_id, 'options': plain(c.options),
                 'preamble': _snap_content(c.preamble_section),
                 'meta': _snap_content(c.meta_section),
                 'files': [snap_file(f) for f in c.files]}
@@ -56,7 +57,7 @@ def snap_change(c):
 
 def snap_tree(t):
     try:
-        return {'id': t.section_id, 'options': copy.deepcopy(t.options),
+        return {'id': t.section_id, 'options': plain(t.options),
                 'preamble': _snap_content(t.preamble_section),
                 'meta': _snap_content(t.meta_section),
                 'changes': [snap_change(c) for c in t.changes]}
@@ -269,6 +270,29 @@ def resolve(tree, path):
     return node
 
 
+def argval(world, st, v, top=True):
+    """The Python value an op hands to the library.  Scenario key
+    'dom_values': 'sub' = instances of subclasses of str / int / bytes / dict
+    (top level, and the values of keyword dicts); 'same' = equal str / bytes
+    values are the very same object every time (a reused literal or
+    variable) instead of equal copies."""
+    mode = world.scn.get('dom_values')
+    v = copy.deepcopy(pyval(v))
+
+    if mode == 'sub':
+        return subclassed(v)
+    elif mode == 'same' and type(v) in (str, bytes):
+        cache = st.__dict__.setdefault('valcache', {})
+        return cache.setdefault((type(v).__name__, v), v)
+
+    return v
+
+
+def argattrs(world, st, attrs):
+    attrs = attrs if isinstance(attrs, dict) else {}
+    return {k: argval(world, st, v) for k, v in attrs.items()}
+
+
 class DomActor(Actor):
     kind = 'dom'
 
@@ -390,7 +414,7 @@ def _do(world, st, op):
     tname = op.get('tree')
 
     if name == 'new_tree':
-        attrs = copy.deepcopy(pyval(op.get('attrs', {})))
+        attrs = argattrs(world, st, op.get('attrs', {}))
         st.trees[tname] = L.DiffX(**attrs)
         return {}
 
@@ -471,7 +495,7 @@ def _do(world, st, op):
         return {'outcome': 'skip', 'skipped': 'no-tree'}
 
     if name == 'add_change':
-        attrs = copy.deepcopy(pyval(op.get('attrs', {})))
+        attrs = argattrs(world, st, op.get('attrs', {}))
         tree.add_change(**attrs)
         return {}
     elif name == 'add_file':
@@ -480,7 +504,7 @@ def _do(world, st, op):
         if node is None:
             return {'outcome': 'skip', 'skipped': 'no-change'}
 
-        attrs = copy.deepcopy(pyval(op.get('attrs', {})))
+        attrs = argattrs(world, st, op.get('attrs', {}))
         node.add_file(**attrs)
         return {}
     elif name == 'list_edit':
@@ -517,11 +541,13 @@ def _do(world, st, op):
         if node is None:
             return {'outcome': 'skip', 'skipped': 'no-node'}
 
-        value = copy.deepcopy(pyval(op.get('value')))
+        value = argval(world, st, op.get('value'))
         setattr(node, op['attr'], value)
         got = getattr(node, op['attr'])
         return {'stored': jsonable(got), 'stored_type': type(got).__name__,
-                'same': strict_eq(got, value)}
+                # (a subclass instance may be stored as it is or as its
+                # plain value)
+                'same': strict_eq(plain(got), plain(value))}
     elif name == 'set_option':
         node = resolve(tree, op.get('path', []))
 
